@@ -22,4 +22,11 @@ UNITS = [
              ("lte", f"op == \"<=\" ==> r == Ok::<Comparison, JsonPathError>(Comparison::Lte(left, right))"),
              ("operands", "r matches Ok(c) ==> cmp_lhs(c) == left && cmp_rhs(c) == right"),
          ]),
+
+    Unit(name="FnArg::is_lit", file=M, impl="impl FnArg", fn="is_lit", order=80, serves=["C10"],
+         ret_name="b", ensures=[("def", "b == (*self is Literal)")]),
+    Unit(name="FnArg::is_filter", file=M, impl="impl FnArg", fn="is_filter", order=80, serves=["C10"],
+         ret_name="b", ensures=[("def", "b == (*self is Filter)")]),
+    Unit(name="State::is_nothing", file="src/query/state.rs", impl="impl<'a, T: Queryable> State<'a, T>", fn="is_nothing", order=80, serves=["C10"],
+         ret_name="b", ensures=[("def", "b == (self.data is Nothing)")]),
 ]
